@@ -166,6 +166,9 @@ func (c *Ctx) fieldAccesses() []fieldAccess {
 			}
 		}
 		_, fa.Fresh = p.Root.(*ssa.Alloc)
+		if !fa.Fresh {
+			fa.Fresh = justInsertedFresh(addr)
+		}
 		fa.Held = map[string]locks.Mode{}
 		if st, ok := lk.HeldBefore(in); ok {
 			for _, h := range st.Must {
@@ -343,4 +346,35 @@ func (c *Ctx) accessSummary(k string) string {
 		}
 	}
 	return fmt.Sprintf("%d accesses, %d writes", n, w)
+}
+
+// justInsertedFresh: the address is a field of `m[k]` where the same function has, in a dominating position, stored
+// a freshly allocated object under the same key of the same map (`m[k] = new(T); m[k].f = v`): the object is still
+// being constructed.
+func justInsertedFresh(addr ssa.Value) bool {
+	fa, ok := addr.(*ssa.FieldAddr)
+	if !ok {
+		return false
+	}
+	lk, ok := fa.X.(*ssa.Lookup)
+	if !ok || lk.CommaOk {
+		return false
+	}
+	fn := lk.Parent()
+	mp := ir.PathOf(lk.X)
+	for _, b := range fn.Blocks {
+		for _, in := range b.Instrs {
+			mu, ok := in.(*ssa.MapUpdate)
+			if !ok || mu.Key != lk.Index || !ir.SamePath(ir.PathOf(mu.Map), mp) {
+				continue
+			}
+			if _, isAlloc := ir.SeeThrough(mu.Value).(*ssa.Alloc); !isAlloc {
+				continue
+			}
+			if mu.Block() == lk.Block() && ir.Before(mu, lk) || mu.Block() != lk.Block() && mu.Block().Dominates(lk.Block()) {
+				return true
+			}
+		}
+	}
+	return false
 }
